@@ -17,6 +17,8 @@ list, attribute mutation is a returned state, `clone(x).fit(..)` is `fit` from t
 
 Series are `List (label × value)` with integer labels and `Rat` values; horizons are relative
 integer steps.  Exogenous data, prediction intervals and absolute horizons are not modelled.
+The composites' `_set_cutoff` also pokes the members at the start of a non-empty `update` (before the
+member's own `update`, which sets the same cutoff): that poke is not modelled separately.
 -/
 import SkVerif.Model.Split
 import SkVerif.Model.Sort
@@ -128,6 +130,10 @@ structure Forecaster where
   fit : S → Series → Option Horizon → W S
   update : S → Series → Bool → W S
   predict : S → Option Horizon → W (S × Series)
+  /-- the `cutoff` property -/
+  cutoff : S → Option Int
+  /-- `_set_cutoff` (pure: no validation, nothing handed to a recording leaf) -/
+  setCutoff : S → Option Int → S
 
 structure Transformer where
   S : Type
@@ -151,6 +157,7 @@ inductive Op
   | fit (y : Series) (fh : Option Horizon)
   | update (y : Series) (up : Bool)
   | predict (fh : Option Horizon)
+  | setCutoff (c : Option Int)
   deriving DecidableEq, Repr
 
 namespace Forecaster
@@ -159,6 +166,7 @@ def step (F : Forecaster) (s : F.S) : Op → W (F.S × Option Series)
   | .fit y fh => do let s' ← F.fit s y fh; pure (s', none)
   | .update y up => do let s' ← F.update s y up; pure (s', none)
   | .predict fh => do let (s', p) ← F.predict s fh; pure (s', some p)
+  | .setCutoff c => pure (F.setCutoff s c, none)
 
 /-- a history of calls; fails at the first failing call -/
 def run (F : Forecaster) (s : F.S) : List Op → W (F.S × List (Option Series))
@@ -168,6 +176,19 @@ def run (F : Forecaster) (s : F.S) : List Op → W (F.S × List (Option Series))
       let (s'', os) ← F.run s' ops
       pure (s'', o :: os)
 end Forecaster
+
+/-! ### the combined entry points of `_SktimeForecaster`, as histories of primitive calls -/
+
+/-- `update_predict_single(y_new, fh, update_params)` = `update`, then `predict` -/
+def upsOps (y : Series) (up : Bool) (fh : Option Horizon) : List Op := [.update y up, .predict fh]
+
+/-- `update_predict(y, cv, update_params)` = `_predict_moving_cutoff`: the cutoff is moved to just before
+the new data, every window the splitter yields is fed through update-then-predict, and the cutoff is
+put back to where it was (`_detached_cutoff`).  `windows` = the training windows of `cv.split(y)` as
+series, `fh` = the splitter's horizon, `orig` = the cutoff before the call. -/
+def upmOps (orig : Option Int) (y : Series) (windows : List Series) (fh : Horizon) (up : Bool) : List Op :=
+  .setCutoff (y.head?.map (fun p => p.1 - 1)) ::
+    (windows.flatMap (fun w => [Op.update w up, Op.predict (some fh)]) ++ [.setCutoff orig])
 
 /-! ### member lists (heterogeneous state types) -/
 
@@ -197,6 +218,11 @@ def predictAll : (Fs : List Forecaster) → States Fs → Option Horizon → W (
       let (s', p) ← F.predict s fh
       let (ss', ps) ← predictAll Fs ss fh
       pure ((s', ss'), p :: ps)
+
+/-- `_HeterogenousEnsembleForecaster._set_cutoff` (since /repo dabf16c): every fitted member follows -/
+def setCutoffAll : (Fs : List Forecaster) → States Fs → Option Int → States Fs
+  | [], _, _ => ()
+  | F :: Fs, (s, ss), c => (F.setCutoff s c, setCutoffAll Fs ss c)
 
 /-- `_check_forecasters`: non-empty list, unique names -/
 def checkMembers (names : List String) (n : Nat) : Except Err Unit :=
@@ -278,6 +304,8 @@ def ensemble (agg : Option Agg) (names : List String) (Fs : List Forecaster) : F
       match agg with
       | none => W.fail .value
       | some a => pure ((b, some ss'), aggregate a ps)
+  cutoff := fun (b, _) => b.cutoff
+  setCutoff := fun (b, ss?) c => ({ b with cutoff := c }, ss?.map (fun ss => setCutoffAll Fs ss c))
 
 /-! ### TransformedTargetForecaster -/
 
@@ -356,6 +384,8 @@ def pipelineG (fixed : Bool) (Ts : List Transformer) (F : Forecaster) : Forecast
       let (s', p) ← F.predict s (some f)
       let p' ← inverseChain Ts ts p
       pure ((b, some (ts, s')), p')
+  cutoff := fun (b, _) => b.cutoff
+  setCutoff := fun (b, st?) c => ({ b with cutoff := c }, st?.map (fun st => (st.1, F.setCutoff st.2 c)))
 
 /-- the pipeline of the current /repo tree -/
 def pipeline (Ts : List Transformer) (F : Forecaster) : Forecaster := pipelineG true Ts F
@@ -394,6 +424,8 @@ def muxOn (chk : Except Err Unit) (F : Forecaster) : Forecaster where
     | some s =>
       let (s', p) ← F.predict s (some f)
       pure ((b, some s'), p)
+  cutoff := fun (b, _) => b.cutoff
+  setCutoff := fun (b, s?) c => ({ b with cutoff := c }, s?.map (fun s => F.setCutoff s c))
 
 /-- no member has the selected name: `_check_selected_forecaster` raises ValueError
 (a bare `Exception` before /repo commit 3ae1e85); the multiplexer never becomes fitted -/
@@ -407,6 +439,8 @@ def muxNone (chk : Except Err Unit) : Forecaster where
     W.fail .value
   update := fun b _ _ => do W.lift b.checkFitted; W.fail .value
   predict := fun b _ => do W.lift b.checkFitted; W.fail .value
+  cutoff := fun b => b.cutoff
+  setCutoff := fun b c => { b with cutoff := c }
 
 def mux (sel : Option String) (names : List String) (Fs : List Forecaster) : Forecaster :=
   match select sel names Fs with
@@ -472,6 +506,8 @@ def stacking (names : List String) (Fs : List Forecaster) (G : Regressor) : Fore
       let (ss', ps) ← predictAll Fs ss none
       let v ← G.predict g (rowsOf (nRows ps) ps)
       pure ((b, some (ss', g)), (predIndex b.cutoff f).zip v)
+  cutoff := fun (b, _) => b.cutoff
+  setCutoff := fun (b, st?) c => ({ b with cutoff := c }, st?.map (fun st => (setCutoffAll Fs st.1 c, st.2)))
 
 /-! ### the recording leaves of harness/recorders_C09.py (used by the driver and in examples) -/
 
@@ -507,6 +543,8 @@ def recF (p : LeafP) : Forecaster where
     let f ← W.lift b.getFh
     W.tell [.fc p.tag "predict" [] (some f) none]
     pure ((b, lv), f.map (fun h => (b.cutoff.getD 0 + h, lv + p.d * (h : Rat))))
+  cutoff := fun (b, _) => b.cutoff
+  setCutoff := fun (b, lv) c => ({ b with cutoff := c }, lv)
 
 structure TrP where
   tag : String
